@@ -975,7 +975,7 @@ def parse_etags(value: str | None) -> ds.ETags:
         is_weak, quoted, raw = match.groups()
         if raw == "*":
             return ds.ETags(star_tag=True)
-        elif quoted:
+        elif quoted is not None:
             raw = quoted
         if is_weak:
             weak.append(raw)
